@@ -438,15 +438,27 @@ func (s *hsut) opRemove(m *hmodel, e *helem) bool {
 		return false
 	}
 	var before []int
+	var disp *helem // coverage: the element of the last array position, which takes the victim's place
 	if cl != "live" {
 		before = s.snapshot()
 	} else {
 		s.muts++
+		last := len(m.live) - 1
 		switch {
-		case pre == len(m.live)-1:
+		case pre == last:
 			c.Add(s.pfx+"remove_live_last", 1)
 		case pre == 0:
 			c.Add(s.pfx+"remove_live_root", 1)
+		}
+		if pre != last {
+			guard(c, "Index", func() {
+				for _, y := range m.live {
+					if y.h != nil && y.h.Index() == last {
+						disp = y
+						break
+					}
+				}
+			})
 		}
 	}
 	if !guard(c, "Remove", func() { m.h.Remove(e.h) }) {
@@ -456,7 +468,20 @@ func (s *hsut) opRemove(m *hmodel, e *helem) bool {
 	c.Add(s.pfx+"remove_"+cl, 1)
 	if cl == "live" {
 		s.leave(m, e)
-		return s.check()
+		if !s.check() {
+			return false
+		}
+		if disp != nil {
+			switch post, _ := s.index(disp); {
+			case post < pre:
+				c.Add(s.pfx+"remove_sift_up", 1)
+			case post > pre:
+				c.Add(s.pfx+"remove_sift_down", 1)
+			default:
+				c.Add(s.pfx+"remove_displaced_stays", 1)
+			}
+		}
+		return true
 	}
 	if !s.check() {
 		return false
@@ -789,6 +814,7 @@ func heapRun(c *ev.Case, deep bool) {
 	// two heaps; B is often the larger one so that a foreign handle's index is
 	// out of A's range
 	ordA, ordB := pickOrder(rng), pickOrder(rng)
+	c.Add(s.pfx+"order "+ordA.name, 1)
 	a := s.addHeap("A", ordA, initialKeys(rng, g, sizeA, ordA), rng.Chance(1, 2))
 	if c.Failed() {
 		return
